@@ -748,14 +748,23 @@ def gen_stats_query(rng, schema, ds, opts=None):
             if rng.random() < 0.15:
                 shared = gen_tree(rng, schema, ds, table, simple_cols or cols, dict(opts, negate_p=0.1), "Stats", 1)
                 nshared = 1
+            cv_run = False
+            if rng.random() < 0.22 and any(c["name"] == "custom_variables" for c in cols):
+                # counters that start with the same custom variable term; a later one names another variable
+                shared = ["Stats: custom_variables %s %s %s" % (rng.choice(["=", "!=", "~"]), rng.choice(CV_NAMES), rng.choice(CV_VALUES[:4]))]
+                nshared, run, cv_run = 1, rng.choice([3, 3, 4]), True
             op = rng.choice(["StatsAnd", "StatsAnd", "StatsAnd", "StatsOr"])
-            for _ in range(run):
+            for run_i in range(run):
                 rest_n = rng.choice([1, 1, 2])
                 rest = []
                 for _ in range(rest_n):
                     rest += gen_tree(rng, schema, ds, table, cols, dict(opts, negate_p=0.1), "Stats", rng.choice([0, 0, 1]))
                 lead = list(shared)
-                if rng.random() < 0.45 and lead and lead[0].startswith("Stats: ") and len(lead[0].split(" ")) >= 3:
+                if cv_run and run_i >= 2 and rng.random() < 0.7:
+                    parts = lead[0].split(" ")
+                    parts[3] = rng.choice([n for n in CV_NAMES if n != parts[3]])
+                    lead[0] = " ".join(parts)
+                elif rng.random() < 0.45 and lead and lead[0].startswith("Stats: ") and len(lead[0].split(" ")) >= 3:
                     # a near miss of the shared leading term: other operator, other value, negated, or other custom variable
                     parts = lead[0].split(" ")
                     m = rng.choice(["op", "op", "value", "negate", "tag"])
